@@ -11,9 +11,15 @@ builders) is written into a generated Coq file together with the same inputs and
 `denote` (the mathematical operator).  sympy's expand()/as_coefficients_dict() output is taken
 from the implementation and fed to the model as an oracle; it is separately compared with the
 model's own expansion.
+
+Round 5 (run_model_algebra, C15/PropsModels.v): the built-in symbolic models go through the same algebra streams as hand-written forms --
+products @ of two and three factors with each other and with non-commuting hand-written forms, sums, scalar multiples, built with the
+real operators and observed on every route; the specification is the Coq form of the model's documented formula composed with
+FMul/FAdd.  Per-run contract: every symbol emitted by hamiltonians/models.py is a non-commutative qibo Symbol (otherwise sympy
+re-orders factors and the oracle contract `smonos_op ms = denote f` fails: reordered_oracle_violates_contract).
 """
 import os as _os
-STATIC = ["C15/Props", "C15/History", "C15/PropsHist"]
+STATIC = ["C15/Props", "C15/History", "C15/PropsHist", "C15/PropsModels"]
 import itertools
 import math
 import random
@@ -87,6 +93,8 @@ def ast_coq(f):
         return f"(FMul {ast_coq(f[1])} {ast_coq(f[2])})"
     if t == "P":
         return f"(zpow {ast_coq(f[1])} {f[2]})"
+    if t == "C":        # ("C", label, coq term): a built-in model, specified by the Coq form of its documented formula
+        return f"({f[2]})"
     raise ValueError(f)
 
 
@@ -94,6 +102,8 @@ def ast_str(f):
     t = f[0]
     if t == "S":
         return f"{f[1]}{f[2]}"
+    if t == "C":
+        return f[1]
     if t == "N":
         return f"({f[1]}{f[2]:+d}j)" if f[2] else str(f[1])
     if t == "A":
@@ -299,12 +309,19 @@ class Batch:
         self.items.append((label, term, meta or {}, expect, on_false))
 
     def flush(self):
+        """chunks of <= 400 terms, evaluated by up to 4 coqc processes side by side"""
+        from concurrent.futures import ThreadPoolExecutor
         res = {}
-        for k in range(0, len(self.items), 400):
-            chunk = self.items[k:k + 400]
-            r, out = self.run.coq_bools(f"{self.name}_{k // 400}.v", HEADER, [(l, t) for l, t, _, _, _ in chunk], timeout=900)
+        chunks = [(k // 400, self.items[k:k + 400]) for k in range(0, len(self.items), 400)]
+
+        def work(job):
+            j, chunk = job
+            return j, self.run.coq_bools(f"{self.name}_{j}.v", HEADER, [(l, t) for l, t, _, _, _ in chunk], timeout=900)
+        with ThreadPoolExecutor(max_workers=4) as ex:
+            done = list(ex.map(work, chunks))
+        for j, (r, out) in done:
             if r is None:
-                self.run.find(f"coq:{self.name}_{k // 400}", "generated correspondence file does not compile",
+                self.run.find(f"coq:{self.name}_{j}", "generated correspondence file does not compile",
                               {"log": out[-1500:]}, concrete=False)
                 continue
             res.update(r)
@@ -331,16 +348,18 @@ def to_arr(x, shape):
     return np.asarray(x)
 
 
-def check_symbolic(run, B, tag, ast, n, rng, expr=None, deep=True):
-    """all observation points of one symbolic Hamiltonian against model and specification"""
+def check_symbolic(run, B, tag, ast, n, rng, expr=None, deep=True, ham=None, extra=None, max_term_items=10 ** 6):
+    """all observation points of one symbolic Hamiltonian against model and specification; `ham` = an existing object
+    (result of the real algebra operators) to observe instead of building one from `expr`"""
     from qibo.hamiltonians import SymbolicHamiltonian
     import sympy
-    expr = ast_sympy(ast, use_complex=rng.random() < 0.7) if expr is None else expr
-    if not isinstance(expr, sympy.Expr):
-        expr = sympy.sympify(expr)
-    desc = {"form": ast_str(ast), "nqubits": n}
+    if ham is None:
+        expr = ast_sympy(ast, use_complex=rng.random() < 0.7) if expr is None else expr
+        if not isinstance(expr, sympy.Expr):
+            expr = sympy.sympify(expr)
+    desc = {"form": ast_str(ast), "nqubits": n, **(extra or {})}
     try:
-        h = SymbolicHamiltonian(expr, nqubits=n)
+        h = SymbolicHamiltonian(expr, nqubits=n) if ham is None else ham
         M = np.asarray(h.matrix)
         A = ast_coq(ast)
         T = tree_coq(h.form)
@@ -371,7 +390,7 @@ def check_symbolic(run, B, tag, ast, n, rng, expr=None, deep=True):
         B.add(f"{tag}:terms_model",
               f"(let tc := terms_of {orc} in list_eqb sterm_eqb (fst tc) {its} && zi_eqb (snd tc) {const})",
               {**desc, "what": "h.terms / h.constant vs model of SymbolicTerm.__init__ on sympy's monomials"})
-        for j, t in enumerate(h.terms):
+        for j, t in enumerate(h.terms[:max_term_items]):
             B.add(f"{tag}:term_matrix{j}",
                   f"(let t := nth {j}%nat (fst (terms_of {orc})) (mk_sterm zi0 []) in "
                   f"meqb (term_matrix t) {cmat(t.matrix)} && list_eqb Nat.eqb (t_targets t) {znats(t.target_qubits)})",
@@ -413,7 +432,7 @@ def check_symbolic(run, B, tag, ast, n, rng, expr=None, deep=True):
         B.add(f"{tag}:expect_spec:{cls}", f"({zint(ev)} =? dense_expect_state (denote {n}%nat {A}) {P})",
               {**rp, "what": "h.expectation(psi) vs Re <psi|[[form]]|psi>", "impl": float(ev), "kind": "expect"})
         B.add(f"{tag}:expect_dm_spec:{cls}", f"({zint(evd)} =? dense_expect_dm (denote {n}%nat {A}) {R})", {**rp, "what": "h.expectation(rho) vs Re tr([[form]] rho)", "kind": "expect_dm"})
-        if multi:   # the HISTORICAL model (factors applied first-to-last), only to classify a regression precisely
+        if multi and desc.get("mechanism") != "model_algebra":   # the HISTORICAL model (factors applied first-to-last), only to classify a regression precisely
             B.add(f"{tag}:apply_modelprefix", f"meqb (apply_gates_prefix {n}%nat (terms_of {orc}) {P}) {ccol(hpsi)}", rp, expect=None)
             B.add(f"{tag}:apply_dm_modelprefix", f"meqb (apply_gates_prefix {n}%nat (terms_of {orc}) {R}) {cmat(hrho)}", rp, expect=None)
             B.add(f"{tag}:expect_modelprefix", f"({zint(ev)} =? sym_expect_state_prefix {n}%nat (terms_of {orc}) {P})", rp, expect=None)
@@ -494,6 +513,16 @@ def judge(run, B, res):
         parts = label.split(":")
         what = parts[1]
         if ok or expect is None:
+            continue
+        if meta.get("mechanism") == "model_algebra":
+            if what.endswith("_model") and what.split("_model")[0] in ("apply", "apply_dm", "expect", "expect_dm") or what.endswith("_modelprefix"):
+                continue
+            seen = B.__dict__.setdefault("ma_seen", {})
+            seen[what] = seen.get(what, 0) + 1
+            if seen[what] > 2:
+                continue
+            run.find(f"model_algebra:{what}:{meta['form']}", f"{meta.get('what', label)} differs for the composite {meta['form']} built with the real "
+                     "operators (+, -, scalar *, @) from built-in symbolic models (dense=False) and hand-written forms", dict(meta))
             continue
         if what.endswith("_model") and what.split("_model")[0] in ("apply", "apply_dm", "expect", "expect_dm"):
             continue        # reported through the corresponding _spec item (the live model is proved equal to the spec)
@@ -808,6 +837,174 @@ def run_models(run, rng):
     judge(run, B, B.flush())
 
 
+
+# ------------------------------------------------------------------ built-in models inside the algebra (families D/E)
+def _zz3(t):
+    return "(" + ",".join(zint(x) for x in t) + ")"
+
+
+def model_leaf(rec):
+    """recipe ["model", name, n, *params] -> (SymbolicHamiltonian built by hamiltonians/models.py with dense=False, spec AST)"""
+    from qibo import hamiltonians as H
+    name, n = rec[1], rec[2]
+    if name == "TFIM":
+        return H.TFIM(n, h=rec[3], dense=False), ("C", f"TFIM({n},h={rec[3]})", f"tfim_form {n}%nat {zint(rec[3])}")
+    if name in ("X", "Y", "Z"):
+        return getattr(H, name)(n, dense=False), ("C", f"{name}model({n})", f"onebody_form {n}%nat {PNAME[name]}")
+    if name == "Heisenberg":
+        return H.Heisenberg(n, list(rec[3]), list(rec[4]), dense=False), ("C", f"Heisenberg({n},{list(rec[3])},{list(rec[4])})", f"heis_form {n}%nat {_zz3(rec[3])} {_zz3(rec[4])}")
+    if name == "XXZ":
+        return H.XXZ(n, delta=rec[3], dense=False), ("C", f"XXZ({n},delta={rec[3]})", f"heis_form {n}%nat (-1,-1,{zint(-rec[3])}) (0,0,0)")
+    if name == "XXX":
+        return H.XXX(n, rec[3], list(rec[4]), dense=False), ("C", f"XXX({n},{rec[3]},{list(rec[4])})", f"heis_form {n}%nat {_zz3([rec[3]] * 3)} {_zz3(rec[4])}")
+    if name == "2MaxCut":
+        adjc = "[" + ";".join(zlist(r) for r in rec[3]) + "]"
+        return 2 * H.MaxCut(n, dense=False, adj_matrix=rec[3]), ("C", f"2*MaxCut({n},{rec[3]})", f"maxcut2_form {n}%nat {adjc}")
+    raise ValueError(rec)
+
+
+def _tup(x):
+    return tuple(_tup(y) for y in x) if isinstance(x, list) else x
+
+
+def build_recipe(rec, n):
+    """object tree -> (real object obtained with the real operators, spec AST)"""
+    from qibo.hamiltonians import SymbolicHamiltonian
+    k = rec[0]
+    if k == "model":
+        return model_leaf(rec)
+    if k == "form":
+        a = _tup(rec[1])
+        return SymbolicHamiltonian(ast_sympy(a), nqubits=n), a
+    if k in ("matmul", "add", "sub"):
+        (h1, a1), (h2, a2) = build_recipe(rec[1], n), build_recipe(rec[2], n)
+        if h1.nqubits != n or h2.nqubits != n:
+            raise Unsupported("nqubits inferred from the form is smaller than the register")
+        if k == "matmul":
+            return h1 @ h2, ("M", a1, a2)
+        if k == "add":
+            return h1 + h2, ("A", a1, a2)
+        return h1 - h2, ("A", a1, ("M", ("N", -1, 0), a2))
+    h1, a1 = build_recipe(rec[2], n)
+    c = rec[1]
+    if k == "mul":
+        return c * h1, ("M", ("N", c, 0), a1)
+    if k == "rmul":
+        return h1 * c, ("M", ("N", c, 0), a1)
+    if k == "addc":
+        return h1 + c, ("A", a1, ("N", c, 0))
+    if k == "rsubc":
+        return c - h1, ("A", ("N", c, 0), ("M", ("N", -1, 0), a1))
+    raise ValueError(rec)
+
+
+def rand_model(rng, n):
+    i3 = lambda lo, hi: [rng.randrange(lo, hi) for _ in range(3)]
+    k = rng.choice(["TFIM", "TFIM", "Heisenberg", "XXZ", "XXX", "2MaxCut", "X", "Y", "Z"])
+    if k == "TFIM":
+        return ["model", "TFIM", n, rng.choice([-2, -1, 0, 1, 2, 3])]
+    if k == "Heisenberg":
+        J = i3(-2, 3)
+        J[rng.randrange(3)] = rng.choice([-2, -1, 1, 2])
+        return ["model", "Heisenberg", n, J, i3(-1, 2)]
+    if k == "XXZ":
+        return ["model", "XXZ", n, rng.choice([-2, -1, 1, 2, 3])]
+    if k == "XXX":
+        return ["model", "XXX", n, rng.choice([-2, -1, 1, 2]), i3(-1, 2)]
+    if k == "2MaxCut":
+        adj = [[rng.randrange(-2, 4) for _ in range(n)] for _ in range(n)]
+        adj[0][n - 1] = adj[0][n - 1] or 1
+        return ["model", "2MaxCut", n, adj]
+    return ["model", k, n]
+
+
+def _lst(x):
+    return [_lst(y) for y in x] if isinstance(x, tuple) else x
+
+
+def rand_hand_form(rng, n):
+    """a hand-written NON-commuting form that mentions the last qubit (default symbols)"""
+    r = rng.random()
+    f = rand_product(rng, n, rng.randrange(1, 4)) if r < 0.5 else rand_tfim_like(rng, n) if r < 0.8 else rand_form(rng, n, 2, paulis="XYZ", cplx=0.0)
+    return ["form", _lst(f)]
+
+
+def gen_model_recipes(run, rng):
+    quick = run.tier == "quick"
+    P = lambda p, q: ["form", ["S", p, q]]
+    out = []
+    for m in (["model", "TFIM", 2, 1], ["model", "TFIM", 3, 2], ["model", "XXZ", 2, 2]):
+        n = m[2]
+        for p in "XYZ":
+            for q in (range(n) if n == 2 else [rng.randrange(n)]):
+                out.append((n, ["matmul", P(p, q), m]))               # a non-commuting factor LEFT of every coupling
+        out.append((n, ["matmul", m, P("Y", n - 1)]))
+    t2, x2, t3, x3 = ["model", "TFIM", 2, 1], ["model", "X", 2], ["model", "TFIM", 3, 1], ["model", "X", 3]
+    out += [(2, ["matmul", t2, t2]), (2, ["matmul", ["matmul", t2, t2], t2]), (2, ["matmul", ["matmul", x2, t2], x2]),
+            (3, ["matmul", ["matmul", x3, t3], x3]), (3, ["matmul", t3, ["model", "Heisenberg", 3, [1, -1, 2], [0, 1, 0]]]),
+            (2, ["matmul", ["add", t2, x2], ["addc", -2, ["model", "TFIM", 2, 3]]]),
+            (2, ["matmul", ["model", "Y", 2], ["model", "2MaxCut", 2, [[0, 1], [2, 0]]]]),
+            (3, ["sub", ["mul", 2, t3], ["matmul", ["model", "Z", 3], x3]])]
+    for _ in range(22 if quick else 200):
+        n = rng.choice([2, 2, 3])
+        m1, m2 = rand_model(rng, n), rand_model(rng, n)
+        f1, f2 = rand_hand_form(rng, n), rand_hand_form(rng, n)
+        c = rng.choice([-3, -2, -1, 2, 3])
+        shape = rng.randrange(10)
+        rec = [["matmul", f1, m1], ["matmul", m1, f1], ["matmul", m1, m2], ["matmul", ["matmul", f1, m1], f2],
+               ["matmul", ["matmul", m1, f1], m2], ["matmul", ["add", m1, f1], m2], ["sub", ["mul", c, m1], f1],
+               ["add", ["matmul", f1, m1], ["rmul", c, m2]], ["matmul", ["rsubc", c, m1], ["sub", f1, m2]],
+               ["matmul", ["matmul", m1, m2], m1]][shape]
+        out.append((n, rec))
+    return out
+
+
+def model_symbols_contract(run):
+    """per-run contract of the Coq model of the term route: every symbol emitted by hamiltonians/models.py (dense=False) is a
+    NON-commutative qibo Symbol (sympy reorders commutative factors, C15/PropsModels.v reordered_oracle_violates_contract)"""
+    from qibo.symbols import Symbol
+    bad = []
+    recs = [["model", "TFIM", n, h] for n in (2, 3, 4) for h in (0, 1)] + [["model", p, n] for p in "XYZ" for n in (1, 3)] + \
+           [["model", "Heisenberg", 3, [1, 2, 3], [1, 1, 1]], ["model", "XXZ", 3, 2], ["model", "XXX", 3, 1, [1, 0, 0]],
+            ["model", "2MaxCut", 3, [[0, 1, 2], [1, 0, 1], [2, 1, 0]]]]
+    for rec in recs:
+        h, a = model_leaf(rec)
+        run.case(["model-symbols", a[1]], nontrivial=True)
+        for s in sorted(h.form.free_symbols, key=str):
+            if not isinstance(s, Symbol) or s.is_commutative is not False:
+                bad.append((a[1], str(s)))
+                if len(bad) <= 3:
+                    run.find(f"model_algebra:commutative_symbol:{a[1]}:{s}",
+                             f"the symbolic model {a[1]} emits the symbol {s} with commutative={s.is_commutative}: sympy moves commutative factors to the front of "
+                             "every monomial, so operator products with a non-commuting form on the left are re-ordered in SymbolicHamiltonian.terms "
+                             "(term-by-term route != dense route)", {"mechanism": "model_algebra", "recipe": ["matmul", ["form", ["S", "X", getattr(s, 'target_qubit', 0)]], rec],
+                                                                   "nqubits": rec[2]})
+    run.oblige("contract:every symbol emitted by the built-in symbolic models is a non-commutative qibo Symbol (hypothesis of the oracle contract "
+               "smonos_op ms = denote f for products, C15/PropsModels.v)", not bad, "contract")
+
+
+def run_model_algebra(run, rng, only=None):
+    B = Batch(run, "C15_model_algebra")
+    recs = gen_model_recipes(run, rng) if only is None else [only]
+    if only is None:
+        model_symbols_contract(run)
+    k = 0
+    for n, rec in recs:
+        try:
+            r, ast = build_recipe(rec, n)
+        except Unsupported:
+            continue
+        except Exception as e:      # noqa: BLE001
+            run.find(f"model_algebra:raises:{rec}", f"building {rec} with the real operators raised {type(e).__name__}: {str(e)[:150]}",
+                     {"mechanism": "model_algebra", "recipe": rec, "nqubits": n})
+            continue
+        if r.nqubits != n or len(r.terms) > 70:      # larger composites: numpy stream `models` of harness/c15_hist.py
+            continue
+        check_symbolic(run, B, f"ma{k}", ast, n, rng, ham=r, extra={"mechanism": "model_algebra", "recipe": rec}, max_term_items=4)
+        k += 1
+    judge(run, B, B.flush())
+    run.notes["model_algebra_composites"] = k
+
 # ------------------------------------------------------------------ malformed forms
 def run_malformed(run, rng):
     from qibo.hamiltonians import SymbolicHamiltonian
@@ -832,7 +1029,13 @@ RULE = ("random Pauli-polynomial ASTs (sums, non-commutative products, powers 0.
         "Gaussian-integer states / density matrices; pairs of Hamiltonians x scalars for the algebra; diagonal "
         "integer Hamiltonians x scalars for the eigenvalue cache; Z-forms x power-of-two frequency tables x "
         "(permuted / partial / default) qubit maps; model builders for n = 2..5. A case is counted as distinct by "
-        "the hash of its inputs; non-trivial = the Hamiltonian has at least one term.")
+        "the hash of its inputs; non-trivial = the Hamiltonian has at least one term. "
+        "Model algebra (families D/E): composites built with the REAL operators (+, -, scalar *, @ of two and three factors) from the built-in symbolic "
+        "models (TFIM, Heisenberg, XXZ, XXX, 2*MaxCut, X, Y, Z with dense=False, n = 2, 3) and hand-written non-commuting forms -- a fixed corpus (every "
+        "Pauli on every qubit LEFT of a model, squares, cubes, X @ H @ X) + random shapes; spec = the Coq form of the documented formula (tfim_form, "
+        "heis_form, ...) composed by FMul / FAdd; every observation point of check_symbolic; composites with more than 70 terms and non-integer "
+        "parameters go to the numpy-exact stream `models` of c15_hist; contract: every symbol a model emits is non-commutative. "
+        "Representation stream (family F): states / density matrices / matrices as int64, float64, float32, complex64, Fortran order, strided, read-only.")
 
 
 def main(run):
@@ -851,6 +1054,7 @@ def main(run):
     run_samples(run, rng)
     run_models(run, rng)
     run_malformed(run, rng)
+    run_model_algebra(run, random.Random(run.seed * 31 + 5))
     # extension streams (history == fresh, non-mutation, primitives of the density-matrix route, custom symbols, from_circuit);
     # own generator so that the streams above are unchanged
     from harness import c15_hist
@@ -883,6 +1087,11 @@ def static_obligations(run):
         for nm in vcore.props_theorems("C15/PropsHist.v"):
             run.oblige(nm, ok2 and nm in res2 and res2[nm].startswith("Closed"), "static theorem (coq/theories/C15/PropsHist.v)")
         res = {**res, **res2}
+    if os.path.exists(os.path.join(vcore.THEORIES, "C15/PropsModels.v")):
+        ok3, res3 = vcore.static_assumptions("C15/PropsModels")
+        for nm in vcore.props_theorems("C15/PropsModels.v"):
+            run.oblige(nm, ok3 and nm in res3 and res3[nm].startswith("Closed"), "static theorem (coq/theories/C15/PropsModels.v)")
+        res = {**res, **res3}
     run.checker_cmds.append("make -C coq theories/C15/Props.vo ; coqc _build/assumptions/C15_Props_pa.v")
     run.notes["static_theorems"] = res
 
@@ -898,6 +1107,8 @@ def replay(run, data):
         B = Batch(run, "C15_replay")
         check_symbolic(run, B, "r0", ast, rp["nqubits"], rng)
         judge(run, B, B.flush())
+    elif mech == "model_algebra" and "recipe" in rp:
+        run_model_algebra(run, rng, only=(rp["nqubits"], rp["recipe"]))
     elif mech == "samples" and "form" in rp:
         run_samples(run, rng, only=(rp["nqubits"], parse_ast(rp["form"]), {str(k): int(v) for k, v in rp["freq"].items()}, rp.get("qubit_map")))
     elif __import__("harness.c15_hist", fromlist=["replay"]).replay(run, data):
